@@ -15,7 +15,9 @@ VARIABLES l, tally
 vars == <<l, tally>>
 
 Obs == ndJsonDeserialize(ObsFile)
-EitherFaults == {"refhash", "refhashslash", "refdefsempty", "defaultemptykey"}
+EitherFaults == {"refhash", "refhashslash", "refdefsempty", "defaultemptykey", "badgotype"}
+\* scenarios whose successful output is, by construction, not valid Go: "complete" means written, not parsable
+Unparsable(sc) == \E k \in DOMAIN sc.args : sc.args[k].fault = "badgotype"
 
 AnyBad(sc) == sc.flags # "ok" \/ \E k \in DOMAIN sc.args : sc.args[k].status = "bad" /\ sc.args[k].fault \notin EitherFaults
 AllOk(sc)  == sc.flags = "ok" /\ \A k \in DOMAIN sc.args : sc.args[k].status = "ok"
@@ -23,7 +25,8 @@ AllOk(sc)  == sc.flags = "ok" /\ \A k \in DOMAIN sc.args : sc.args[k].status = "
 CleanFail(o) == /\ o.exit # 0 /\ ~o.timedout /\ ~o.panic /\ o.stderr
                 /\ ~o.stdout /\ o.created = <<>> /\ o.modified = <<>>
 Success(sc, o) == /\ o.exit = 0 /\ ~o.panic /\ ~o.timedout
-                  /\ IF sc.outmode = "stdout" THEN o.stdoutgo ELSE o.outputsok = o.outputswanted
+                  /\ IF Unparsable(sc) THEN (IF sc.outmode = "stdout" THEN o.stdout ELSE o.outputsthere = o.outputswanted)
+                     ELSE IF sc.outmode = "stdout" THEN o.stdoutgo ELSE o.outputsok = o.outputswanted
 
 RefOK(sc, o) ==
   IF sc.flags = "bytes" THEN Success(sc, o) \/ CleanFail(o)
